@@ -47,6 +47,7 @@ func (s *expStepStructure) commitmentsFromSecrets(g zkproof.Group, list []*big.I
 
 	if secretdata.Secret(s.bitname).Cmp(big.NewInt(0)) == 0 {
 		commit.isTypeA = true
+		common.VerifPoint("expstep.branchA")
 
 		// prove a
 		list, commit.acommit = s.stepa.commitmentsFromSecrets(g, list, bases, secretdata)
@@ -57,6 +58,7 @@ func (s *expStepStructure) commitmentsFromSecrets(g zkproof.Group, list []*big.I
 		list = s.stepb.commitmentsFromProof(g, list, commit.bchallenge, bases, commit.bproof)
 	} else {
 		commit.isTypeA = false
+		common.VerifPoint("expstep.branchB")
 
 		// fake a
 		commit.achallenge = common.FastRandomBigInt(new(big.Int).Lsh(big.NewInt(1), 256))
